@@ -37,16 +37,6 @@ theorem host_rel (he : HostEnv) (h : CfgRel ks1 w1 ks2 w2) (op : Interp.HostOp) 
     (hl : answer he w1 op = .ok (resp, w1')) :
     ∃ w2', answer he w2 op = .ok (resp, w2') ∧ CfgRel ks1 w1' ks2 w2' := by
   cases op with
-  | keccak data =>
-    simp only [answer, pure, Except.pure, Except.ok.injEq, Prod.mk.injEq] at hl ⊢
-    obtain ⟨h1, h2⟩ := hl
-    subst h1; subst h2
-    exact ⟨w2, ⟨rfl, rfl⟩, h⟩
-  | blockHash n =>
-    simp only [answer, pure, Except.pure, Except.ok.injEq, Prod.mk.injEq] at hl ⊢
-    obtain ⟨h1, h2⟩ := hl
-    subst h1; subst h2
-    exact ⟨w2, ⟨rfl, rfl⟩, h⟩
   | tload a k =>
     simp only [answer, pure, Except.pure, Except.ok.injEq, Prod.mk.injEq] at hl ⊢
     obtain ⟨h1, h2⟩ := hl
@@ -238,5 +228,11 @@ theorem host_rel (he : HostEnv) (h : CfgRel ks1 w1 ks2 w2) (op : Interp.HostOp) 
       obtain ⟨hl1, hl2⟩ := hl
       subst hl1; subst hl2
       exact ⟨wb, ⟨rfl, rfl⟩, hr⟩
+  | _ =>
+    -- the answers that do not look at the world (KECCAK256, BLOCKHASH)
+    simp only [answer, pure, Except.pure, Except.ok.injEq, Prod.mk.injEq] at hl ⊢
+    obtain ⟨h1, h2⟩ := hl
+    subst h1; subst h2
+    exact ⟨w2, ⟨rfl, rfl⟩, h⟩
 
 end Revm.Proofs.EvmRefine
